@@ -212,6 +212,52 @@ fn permute(j: &J, rng: &mut Rng, inside_values: bool) -> J {
     }
 }
 
+/// A malformed variant of a document: a dropped field, a wrongly typed field, an unknown variant
+/// tag, a duplicated struct field, an unknown extra field, an out-of-range number.
+fn malform(j: &J, rng: &mut Rng) -> J {
+    let J::Obj(top) = j else { return J::Null };
+    let Some((tag, J::Obj(fields))) = top.first().cloned() else { return J::Arr(vec![]) };
+    let mut fields = fields;
+    let mut tag = tag;
+    match rng.below(8) {
+        0 if !fields.is_empty() => {
+            fields.remove(rng.below(fields.len()));
+        }
+        1 if !fields.is_empty() => {
+            let i = rng.below(fields.len());
+            fields[i].1 = match &fields[i].1 {
+                J::Int(_) => J::Str("7".into()),
+                J::Str(_) => J::Int("7".into()),
+                J::Obj(_) => J::Arr(vec![]),
+                _ => J::Null,
+            };
+        }
+        2 => tag = format!("{tag}_x"),
+        3 if !fields.is_empty() => {
+            let i = rng.below(fields.len());
+            let dup = fields[i].clone();
+            fields.push(dup);
+        }
+        4 => fields.push(("unknown_field".into(), J::Int("1".into()))),
+        5 if !fields.is_empty() => {
+            let i = rng.below(fields.len());
+            if let J::Int(_) = fields[i].1 {
+                fields[i].1 = J::Int(if rng.chance(1, 2) { "-1".into() } else { "18446744073709551616".into() });
+            }
+        }
+        6 if !fields.is_empty() => {
+            let i = rng.below(fields.len());
+            if let J::Int(t) = &fields[i].1 {
+                if let Ok(v) = t.parse::<f64>() {
+                    fields[i].1 = J::Float((v + 0.5).to_bits());
+                }
+            }
+        }
+        _ => return J::Obj(vec![(tag.clone(), J::Obj(fields.clone())), ("second_variant".into(), J::Null)]),
+    }
+    J::Obj(vec![(tag, J::Obj(fields))])
+}
+
 fn gen_id(rng: &mut Rng) -> u64 {
     match rng.below(5) {
         0 => 0,
@@ -255,6 +301,9 @@ impl Suite for Wire {
                     lines.push(format!("w dec ev 1 {}", json::canon_string(&tree)));
                     if rng.chance(1, 2) {
                         lines.push(format!("w dec ev 0 {}", json::canon_string(&permute(&tree, rng, false))));
+                    }
+                    if rng.chance(1, 2) {
+                        lines.push(format!("w dec ev 0 {}", json::canon_string(&malform(&tree, rng))));
                     }
                     if rng.chance(1, 3) {
                         // duplicate keys inside `values`: legal, last value wins at the first position
